@@ -155,14 +155,15 @@ def _t(level, technique, note=GW_NOTE, **kw):
 TECH = "TLC-generated schedules replayed on the real gateway under gates; recorded traces validated by TLC against the TLA+ observer spec (spec/ObserverTrace.tla)"
 TEXT = {
     "C01": _t("At every quiescent point of every replayed schedule TLC evaluates, on the recorded trace, that the reference client's copy equals the state announced over the MQ boundary (all value kinds, three protocol versions, shared resources).", TECH),
-    "C02": _t("After every client frame of every replayed schedule TLC checks on the trace that the reference client has no dangling reference and that every event is applicable (held resource, kind, index range).", TECH),
+    "C02": _t("After every client frame of every replayed schedule TLC checks on the trace that the reference client has no dangling reference and that every event is applicable (held resource, kind, index range); the readiness replay (SubReadyTrace.tla against SubReadyOps) requires that a subscription is collected only after all its references are ready or visited, that a ready callback fires - and a subscription is marked sent - only when nothing reachable is still loading.", TECH),
     "C03": _t("spec/SubQueue.tla (one subscription's event queue under every interleaving of events, loading, new references, re-check triggers, access answers and the client leaving) is model-checked exhaustively for NoLossNoReorder and IdleDrained; every queue note of the replayed gateway schedules is replayed per subscription object through the same operators (spec/SubQueueTrace.tla: path of every event, processed only when not queueing and only as the received event or the queue head, flags and lengths). At the client boundary: sequence-numbered custom and change events - order, duplicates, gaps at delivery time, completeness at quiescence per (client, resource) holding period, and no event for a resource the client does not hold (before it is handed over / after release).",
               "TLC exhaustive on SubQueue.tla + per-note conformance (SubQueueTrace.tla) + observer rules on gateway traces"),
     "C04": _t("Access ledger in the observer: every response that hands a root resource to a client must be backed by a get grant answered for that connection that no processed trigger has invalidated.", TECH),
     "C05": _t("Every call forwarded to a service must be backed by a valid grant allowing the method; every access/call/auth request must carry the connection's current token.", TECH),
     "C06": _t("spec/SubQueue.tla is model-checked for TriggerKept / DeferredOnlyWhileQueueing / Rechecked (a trigger is never forgotten and leads to an access request or the end of the subscription); SubQueueTrace.tla checks on every gateway trace that a re-check is never started while queueing, is deferred only while queueing and that the deferred flag equals the model's. At the boundary, after each processed trigger on a directly subscribed resource: an access request sent after the trigger follows, nothing handed over after the trigger is delivered before the verdict, a refusal ends in an unsubscribe event with the reason; after a token change every direct subscription is re-checked.",
               "TLC exhaustive on SubQueue.tla + per-note conformance (SubQueueTrace.tla) + observer rules on gateway traces"),
-    "C07": _t("Pending-request ledger: no response for an unknown id, none twice, none missing at quiescence, error shape.", TECH),
+    "C07": _t("Pending-request ledger: no response for an unknown id, none twice, none missing at quiescence, error shape. spec/SubReady.tla (the ready callbacks that release responses: OnReady / onLoaded / collectRefs / Loaded / doneLoading over every reference graph on three resources, loads in any order, failing loads) is model-checked exhaustively: a callback fires exactly once, only when everything reachable is loaded, and always eventually; the rdy* / subRef* notes of every gateway trace are replayed against SubReadyOps by SubReadyTrace.tla.",
+              "TLC exhaustive on SubReady.tla + TLC-generated schedules replayed on the real gateway, traces validated by the observer spec (incl. the SubReadyTrace micro-step replay)"),
     "C08": _t("spec/DirectCount.tla states the counter design (count at receipt, give back on failure / get, limit) with Exact, UnsubRule and LimitHeld; TLC shows them for the repaired design and shows UnsubRule violated for the code-shaped variant - finding KF-H as a named deviation. On the real gateway: per (connection, rid) counter of confirmed direct subscriptions compared with the gateway's snapshot at quiescence; every unsubscribe outcome predicted from the counter; the limit-256 schedule.",
               "TLC exhaustive on DirectCount.tla (design, both variants) + TLC-generated schedules replayed on the real gateway, traces validated by the observer spec"),
     "C09": _t("MQ boundary rules (get only under an established event subscription, no duplicate subscription), use count = subscribers at quiescence, nothing left after the (fake-time) eviction delay, gauges zero.", TECH),
